@@ -51,9 +51,19 @@ package schema
 //@ spec func gvcSelGlob(typ, pattern string) string { g, _ := excludeType(typ, pattern); return g }
 //@ spec func gvcSel(typ, pattern string) bool { _, ok := excludeType(typ, pattern); return ok }
 
-//@ func excludeType(t, v string) (g string, ok bool)
-//@   trusted
+//@ import "regexp"
+//@ import "strings"
+//@ extern func (re *regexp.Regexp) FindStringSubmatch(s string) (m []string)
 //@   pure
+//@ spec func gvcSelParts(v string) []string { return strings.Split(reType.FindStringSubmatch(v)[1], "|") }
+//@ func excludeType(t, v string) (g string, ok bool)
+//@   pure
+//@   ensures no-selector-keeps-the-glob: len(reType.FindStringSubmatch(v)) != 2 ==> g == v && ok
+//@   ensures selector-is-stripped-from-the-end: len(reType.FindStringSubmatch(v)) == 2 ==> g == strings.TrimSuffix(v, reType.FindStringSubmatch(v)[0])
+//@   ensures selector-admits-listed-types-only: len(reType.FindStringSubmatch(v)) == 2 ==>
+//@           (ok == (exists i int :: 0 <= i && i < len(gvcSelParts(v)) && gvcSelParts(v)[i] == t))
+//@   loop 1 invariant 0 <= loopk && loopk <= len(loopx)
+//@   loop 1 invariant (forall j int :: 0 <= j && j < loopk ==> loopx[j] != t)
 
 //@ func filter[T any](s []T, f func(T) (bool, error)) (r []T, err error)
 //@   inline
